@@ -2,6 +2,9 @@
 import workloads
 import gen
 from conc import ConcRun
+import forms
+import formspaths
+from session import Session, ServerDied
 
 LEVEL = 'model_checking'
 RULE = ('TLC explores every interleaving of 2 connections over the transaction catalogue (MC_Txn) and checks '
@@ -24,7 +27,18 @@ def run(ctx):
     for i in range(runs):
         conc_run(ctx, srv, i, clients=4 if ctx.quick else 6, steps=25 if ctx.quick else 60)
     ctx.extra_cov['concurrent_runs'] = runs
-    ctx.extra_cov['distinct_cases'] = len(paths) + runs
+    # every form of every data command queued in a transaction: same reply (inside EXEC's array) and effect as direct
+    tr = ctx.new_trace('forms')
+    s = Session(srv, tr)
+    nf = 0
+    try:
+        nf += formspaths.run_forms(s, 'multi', 0, subset=forms.FORMS[ctx.seed % 2::2] if ctx.quick else None)
+    except ServerDied:
+        tr.emit({'k': 'crash', 'status': srv.exit_status()})
+    s.close_all()
+    ctx.validate_segments(tr, 'forms')
+    ctx.extra_cov['form_segments'] = nf
+    ctx.extra_cov['distinct_cases'] = len(paths) + runs + nf
 
 
 def conc_run(ctx, srv, i, clients, steps):
